@@ -188,7 +188,13 @@ def run_property(pid, tier):
         try:
             twin_runs, twin_fails = W.sweep(pid, [u['name'] for u in units], seed)
         except Exception as e:
+            # a twin crate that does not build / run explores nothing: the thorough tier is inconclusive, never silently "OK"
             twin_runs, twin_fails = [{'case': None, 'error': str(e)[:300]}], []
+            tr = R.UnitResult('twin')
+            tr.backend = 'twin'
+            tr.status = 'inconclusive'
+            tr.reason = 'executable contract twins could not be built or run: %s' % str(e)[-300:].replace('\n', ' ')
+            results.append(tr)
         if twin_fails:
             tr = R.UnitResult('twin')
             tr.backend = 'twin'
